@@ -317,7 +317,7 @@ contract Coordinator.gcTargets
   loop 3 invariant wfAll()
   loop 3 invariant unownedMapsKept()
   loop 3 invariant othersKeepMap(changeAbleShards)
-  loop 3 invariant !heldByOther ==> (forall j in 0..idx3 :: (changeAbleShards[j] != s ==> !(h in changeAbleShards[j].scraping)))
+  loop 3 invariant[C06] @no_other_holder_seen !heldByOther ==> (forall j in 0..idx3 :: (changeAbleShards[j] != s ==> !(h in changeAbleShards[j].scraping)))
 
 // ---------- collecting the reports (C08) ----------
 contract field Coordinator.getConfig()
